@@ -46,7 +46,8 @@ Definition all_flags : list string :=
   ++ map (fl "cli_override_skips_language_sections") (map cmd_of units)
   ++ ["repo_ignore_not_loaded[json]"; "repo_ignore_not_loaded[pyproject]"; "repo_ignore_not_loaded[--config]";
       "global_config_option_ignored"; "dry_config_option_merges_section_only";
-      "pyproject_unparsable_swallowed"; "wrong_type_swallowed"].
+      "pyproject_unparsable_swallowed"; "wrong_type_swallowed";
+      "language_block_error_retried_without_language"; "invalid_top_level_value_shadowed_by_language_block"].
 
 (* ------------------------------------------------------------------ dictionaries *)
 Fixpoint get (k : string) (d : dict) : option val :=
@@ -328,16 +329,16 @@ Definition grow := (string * cmp * Z)%type.
 Definition guards_of (tbl : list (string * string * cmp * Z)) (u : string) : list grow :=
   flat_map (fun g => match g with (u', o, c, b) => if String.eqb u u' then [(o, c, b)] else [] end) tbl.
 
-Inductive status := StOk | StExit2 | StSwallowed.
-(* ValueError from __post_init__ is re-raised (exit 2); a TypeError from comparing a non-number is an
-   "other" exception of the rule *)
-Fixpoint check_guards (gs : list grow) (ri : string -> option Z) (swallow : bool) : status :=
+Inductive status := StOk | StValue | StType.
+(* __post_init__: a guard that holds raises ValueError; comparing a non-number raises TypeError; the first
+   failing guard decides *)
+Fixpoint check_guards (gs : list grow) (ri : string -> option Z) : status :=
   match gs with
   | [] => StOk
   | (o, c, b) :: r =>
     match ri o with
-    | None => if swallow then StSwallowed else StExit2
-    | Some z => if cmp_Z c z b then StExit2 else check_guards r ri swallow
+    | None => StType
+    | Some z => if cmp_Z c z b then StValue else check_guards r ri
     end
   end.
 
@@ -395,20 +396,49 @@ Definition fires (opts : list (string * dval)) (res : string -> option val) (ms 
 
 Inductive outcome := Exit2 | Ran (n : nat).
 
-(* one rule on one file: guards, `enabled`, the rule's own ignore list, probes *)
-Definition unit_outcome (opts : list (string * dval)) (gs : list grow) (probes : list probe) (swallow : bool)
-           (res : string -> option val) (fname : string) (ms : list (string * Z)) : outcome :=
+(* what the rule reports once its configuration object exists: `enabled`, the rule's own ignore list, probes *)
+Definition unit_body (opts : list (string * dval)) (probes : list probe)
+           (res : string -> option val) (fname : string) (ms : list (string * Z)) : nat :=
   let res' o := if has_opt opts o then res o else None in
-  match check_guards gs (fun o => as_int (res' o) (default_of opts o)) swallow with
-  | StExit2 => Exit2
-  | StSwallowed => Ran 0
+  if negb (as_bool (res' "enabled") (default_of opts "enabled")) then 0
+  else if existsb (String.eqb fname) (str_list (res' "ignore")) then 0
+  else List.length (filter (fires opts res' ms) probes).
+
+Definition guard_status (opts : list (string * dval)) (gs : list grow) (res : string -> option val) : status :=
+  check_guards gs (fun o => as_int (if has_opt opts o then res o else None) (default_of opts o)).
+
+(* one rule on one file.
+   [res]     : option values as from_dict(section, language) resolves them (language block first),
+   [res_top] : as from_dict(section) resolves them (top level of the section only).
+   ValueError (a guard holds) is re-raised => exit 2.  [retry_v]/[retry_t]: the exception makes load_linter_config
+   build the configuration again WITHOUT the language; [swallow]: a TypeError that survives is logged and the rule
+   reports nothing; [check_top]: the top-level value is validated even when a language block shadows it. *)
+Definition unit_outcome (opts : list (string * dval)) (gs : list grow) (probes : list probe)
+           (retry_v retry_t swallow check_top : bool)
+           (res res_top : string -> option val) (fname : string) (ms : list (string * Z)) : outcome :=
+  let second :=
+    match guard_status opts gs res_top with
+    | StOk => Ran (unit_body opts probes res_top fname ms)
+    | StValue => Exit2
+    | StType => if swallow then Ran 0 else Exit2
+    end in
+  match guard_status opts gs res with
   | StOk =>
-    if negb (as_bool (res' "enabled") (default_of opts "enabled")) then Ran 0
-    else if existsb (String.eqb fname) (str_list (res' "ignore")) then Ran 0
-    else Ran (List.length (filter (fires opts res' ms) probes))
+    if check_top then
+      match guard_status opts gs res_top with
+      | StOk => Ran (unit_body opts probes res fname ms)
+      | _ => Exit2
+      end
+    else Ran (unit_body opts probes res fname ms)
+  | StValue => if retry_v then second else Exit2
+  | StType => if retry_t then second else if swallow then Ran 0 else Exit2
   end.
 
 Definition swallow_types (q : quirks) : bool := if has q "wrong_type_swallowed" then other_errors_swallowed else false.
+(* load_linter_config: `except <retry_exceptions>: config_class.from_dict(config_dict)` *)
+Definition retries (q : quirks) (u exc : string) : bool :=
+  if has q "language_block_error_retried_without_language" then smem u retry_units && smem exc retry_exceptions else false.
+Definition checks_top (q : quirks) : bool := negb (has q "invalid_top_level_value_shadowed_by_language_block").
 
 (* ------------------------------------------------------------------ the whole run *)
 Definition run (q : quirks) (c : case) : outcome :=
@@ -419,8 +449,9 @@ Definition run (q : quirks) (c : case) : outcome :=
     let cfg := apply_overrides q cli_overrides (c_cmd c) (c_overrides c) cfg0 in
     let u := c_unit c in
     let sect := match find_section (lookup_row q u) cfg with Some s => s | None => [] end in
-    unit_outcome (unit_opts q u) (guards_of guards u) (unit_probes u) (swallow_types q)
-                 (opt_lookup (lang_opts q u) sect (c_lang c)) (c_fname c) (c_metrics c)
+    unit_outcome (unit_opts q u) (guards_of guards u) (unit_probes u)
+                 (retries q u "ValueError") (retries q u "TypeError") (swallow_types q) (checks_top q)
+                 (opt_lookup (lang_opts q u) sect (c_lang c)) (opt_lookup [] sect (c_lang c)) (c_fname c) (c_metrics c)
   end.
 
 (* ================================================================== specification *)
@@ -433,7 +464,8 @@ Definition run (q : quirks) (c : case) : outcome :=
      (the later entry when a document spells it twice);
    - an option's value is the CLI threshold option if given, else the per-language sub-section's value
      (for options documented as overridable per language), else the section's value, else the default;
-   - a documented-invalid value (non-positive limit, wrong type) is exit 2; `enabled: false` reports nothing. *)
+   - a documented-invalid value (non-positive limit, wrong type) is exit 2, whether it is the effective value
+     (the language block's, if any) or the top-level value a language block shadows; `enabled: false` reports nothing. *)
 
 Fixpoint find_last {A} (f : string * A -> bool) (l : list (string * A)) : option A :=
   match l with
@@ -508,6 +540,12 @@ Definition spec_res (c : case) (sect : dict) (opt : string) : option val :=
   | Some z => Some (VInt z)
   | None => opt_lookup (doc_lang_opts (c_unit c)) sect (c_lang c) opt
   end.
+(* the value written at the top level of the section (a CLI option replaces it too) *)
+Definition spec_res_top (c : case) (sect : dict) (opt : string) : option val :=
+  match spec_cli (c_cmd c) (c_overrides c) opt with
+  | Some z => Some (VInt z)
+  | None => get opt sect
+  end.
 
 (* documented options with their defaults (docs/*-linter.md, docs/configuration.md; `enabled` is documented for
    every linter) *)
@@ -561,8 +599,8 @@ Definition spec (c : case) : outcome :=
   | LDoc _ raw =>
     if existsb (String.eqb (c_fname c)) (str_list (get "ignore" raw)) then Ran 0 else
     let u := c_unit c in
-    unit_outcome (doc_opts u) (doc_guards u) (unit_probes u) false
-                 (spec_res c (section_of u raw)) (c_fname c) (c_metrics c)
+    unit_outcome (doc_opts u) (doc_guards u) (unit_probes u) false false false true
+                 (spec_res c (section_of u raw)) (spec_res_top c (section_of u raw)) (c_fname c) (c_metrics c)
   end.
 
 (* ------------------------------------------------------------------ domain of the theorems *)
